@@ -177,10 +177,14 @@ def run(tier):
               ("enable-all=true;disable=" + slow + ";@hugeParam.sizeThreshold=1;@rangeValCopy.sizeThreshold=1;@rangeExprCopy.sizeThreshold=1", 12 if q else 24, 4 if q else 60),
               ("enable-all=true", 6 if q else 12, 2 if q else 10),
               ("enable=#performance;disable=", 12, 4 if q else 40)]
+    # the analyzer's cache is per process and is built by the first (concurrent) entry: several cold
+    # processes per configuration, few rounds each
+    cold = 3 if q else 8
     vjobs = []
     for i, (ac, npk, rounds) in enumerate(aconfs):
-        sh = r.sample(pats, min(len(pats), npk))
-        vjobs.append((i, ac, sh, rounds))
+        for c_ in range(cold):
+            sh = r.sample(pats, min(len(pats), npk))
+            vjobs.append((i * 100 + c_, ac, sh, max(1, rounds // cold)))
 
     def vr(job):
         i, ac, sh, rounds = job
@@ -193,7 +197,7 @@ def run(tier):
                              os.path.join(work, "vr%d.log" % i), 1500, env=env)
         return job, rc, outp, race_blocks(rl)
 
-    vr_outs = vlib.parallel(vr, vjobs, workers=5)
+    vr_outs = vlib.parallel(vr, vjobs, workers=8)
     vlib.log("vrace done")
     for (i, ac, sh, rounds), rc, outp, (blocks, noise) in vr_outs:
         done = res.read_jsonl(outp, accept_props={"C04"})
